@@ -141,6 +141,18 @@ def check_size(ps, c, rng, quick):
         want = expected_hi(c, P, a, b) + expected_lo(c, P, draws)
         if not np.allclose(got, want, rtol=0, atol=1e-10 * np.abs(want).max()):
             bad.append(("ft_sh_phase_screen:not-hi-plus-lo", dict(N=N, params=P, err=float(np.abs(got - want).max()))))
+    # ---- a user-supplied inverse FFT (the FFT= parameter) must give the same screen as the default path (even N)
+    if N >= 2:
+        for fftobj in (np.fft.ifft2, lambda a: np.fft.ifft2(a)):
+            for P in PARAMS[:2]:
+                r0, delta, L0, l0 = P
+                a0 = np.asarray(ps.ft_phase_screen(r0, N, delta, L0, l0, seed=11))
+                a1 = np.asarray(ps.ft_phase_screen(r0, N, delta, L0, l0, FFT=fftobj, seed=11))
+                b0 = np.asarray(ps.ft_sh_phase_screen(r0, N, delta, L0, l0, seed=11))
+                b1 = np.asarray(ps.ft_sh_phase_screen(r0, N, delta, L0, l0, FFT=fftobj, seed=11))
+                if not np.allclose(a1, a0, rtol=0, atol=1e-11 * np.abs(a0).max()) or not np.allclose(b1, b0, rtol=0, atol=1e-11 * np.abs(b0).max()):
+                    bad.append(("ft_phase_screen:FFT-argument-changes-the-screen", dict(N=N, params=P)))
+                    break
     # ---- r0 scaling for fixed draws, interleaved calls on the same geometry
     for seed in (0, 3):
         base = np.asarray(ps.ft_phase_screen(0.2, N, 0.1, 20.0, 0.01, seed=seed))
